@@ -286,10 +286,10 @@ class Region:
         return events, silent, False
 
 
-def region_with_std_oracle(mir, body, call_oracle, event_of, field_oracle=None, depth=3):
+def region_with_std_oracle(mir, body, call_oracle, event_of, field_oracle=None, depth=3, cls=None):
     """a Region over `body` whose call oracle knows the Option / bool / Result adaptors of std, evaluates closures handed to them
     and small functions of the crate recursively (as `returns` does), and asks `call_oracle` for everything else"""
-    return _build(mir, body, call_oracle, field_oracle, depth, event_of)
+    return _build(mir, body, call_oracle, field_oracle, depth, event_of, cls)
 
 
 def returns(mir, body, env0, call_oracle, field_oracle=None, depth=3):
@@ -315,7 +315,7 @@ def returns(mir, body, env0, call_oracle, field_oracle=None, depth=3):
     return out
 
 
-def _build(mir, body, call_oracle, field_oracle, depth, event_of):
+def _build(mir, body, call_oracle, field_oracle, depth, event_of, cls=None):
     from .facts import strip_generics, callee_name, op_place
     from . import mirq
 
@@ -443,5 +443,5 @@ def _build(mir, body, call_oracle, field_oracle, depth, event_of):
             return next(iter(rs)) if len(rs) == 1 else UNKNOWN
         return UNKNOWN
 
-    R0 = Region(body, oracle, event_of, field_oracle)
+    R0 = (cls or Region)(body, oracle, event_of, field_oracle)
     return R0
